@@ -303,6 +303,35 @@ func (a *Asm) Metadata(r *run.Rng) {
 	}
 }
 
+// MetadataRepeated writes a metadata section of two or three well-formed chunks
+// whose identifiers repeat or come out of order (the decoder accepts that; what
+// it means is a don't-care of the grammar checks, but Decode and Disassemble
+// must still tell the same story about it).
+func (a *Asm) MetadataRepeated(r *run.Rng) {
+	n := r.Range(2, 3)
+	a.Nat(uint32(n), 1)
+	for i := 0; i < n; i++ {
+		var c Asm
+		if r.Chance(1, 3) {
+			c.Nat(0, 1)
+			x0, y0 := r.Intn(60), r.Intn(60)
+			c.Nat(uint32(x0), 1)
+			c.Nat(uint32(y0), 1)
+			c.Nat(uint32(x0+r.Intn(60)), 1)
+			c.Nat(uint32(y0+r.Intn(60)), 1)
+		} else {
+			c.Nat(1, 1)
+			cnt, format := r.Range(1, 8), r.Intn(4)
+			c.Byte(byte(cnt-1) | byte(format)<<6)
+			for k := 0; k < cnt*(format+1); k++ {
+				c.Byte(r.Byte())
+			}
+		}
+		a.Nat(uint32(len(c.B)), 1)
+		a.Byte(c.B...)
+	}
+}
+
 // Stream returns a structured random FFV0 stream: valid magic and metadata,
 // then nInstr instructions using every opcode and non-canonical number forms.
 // With reserved=true a reserved opcode may be inserted; with cut>0 that many
